@@ -1,6 +1,7 @@
 package main
 
 import (
+	"bytes"
 	"encoding/json"
 	"errors"
 	"fmt"
@@ -76,6 +77,22 @@ func (w *World) next() int64 { return w.now + w.set.Interval }
 func honestPeer(target string, n *Node) *Peer {
 	return &Peer{Target: target, Serve: func(h uint64) ([]byte, error) {
 		return n.ServedBlocksBytes(h) // through the node's own "blocks" handler
+	}}
+}
+
+// an honest peer whose JSON is laid out differently (indented, as another implementation or a
+// proxy might send it): the same values, other bytes
+func indentedPeer(target string, n *Node) *Peer {
+	return &Peer{Target: target, Serve: func(h uint64) ([]byte, error) {
+		bs, err := n.ServedBlocksBytes(h)
+		if err != nil {
+			return nil, err
+		}
+		var buf bytes.Buffer
+		if err := json.Indent(&buf, bs, "", "  "); err != nil {
+			return bs, nil
+		}
+		return buf.Bytes(), nil
 	}}
 }
 
@@ -428,7 +445,7 @@ func indexOf(ws []*Wallet, w *Wallet) int {
 
 // ---- candidate chains for sync rounds ------------------------------------------------
 // mutate one honest chain so that exactly one rule is broken at height j (links repaired)
-func (w *World) mutateChain(blocks []*JBlock) ([]*JBlock, string) {
+func (w *World) mutateChain(blocks []*JBlock, forced ...string) ([]*JBlock, string) {
 	r := w.r
 	bs := cloneJBlocks(blocks)
 	if len(bs) < 2 {
@@ -437,7 +454,25 @@ func (w *World) mutateChain(blocks []*JBlock) ([]*JBlock, string) {
 	j := 1 + r.Intn(len(bs)-1)
 	var b *JBlock
 	kind := []string{"ts-shift", "future", "two-rewards", "no-reward", "big-reward", "tx-late", "tx-early", "bad-link",
-		"truncate", "drop-first", "reward-yield", "dup-tx", "added-bogus", "removed-bogus", "stale", "big-reward-1", "unlist-yield", "yield-unlisted", "yield-unlisted"}[r.Intn(19)]
+		"truncate", "drop-first", "reward-yield", "dup-tx", "added-bogus", "removed-bogus", "stale", "big-reward-1", "unlist-yield", "yield-unlisted", "yield-unlisted", "double-spend", "double-spend"}[r.Intn(21)]
+	if len(forced) > 0 {
+		kind = forced[0]
+	}
+	if kind == "double-spend" {
+		// needs an ordinary transaction signed by one of our wallets: take the last block holding one
+		for jj := len(bs) - 1; jj >= 1; jj-- {
+			found := false
+			for _, t := range bs[jj].Transactions {
+				if len(t.Inputs) != 0 && w.walletOfKey(t.Inputs[0].PublicKey) != nil {
+					found = true
+				}
+			}
+			if found {
+				j = jj
+				break
+			}
+		}
+	}
 	if kind == "yield-unlisted" {
 		// needs an ordinary transaction; prefer the last block holding one (no dependents above it)
 		for jj := len(bs) - 1; jj >= 1; jj-- {
@@ -532,6 +567,23 @@ func (w *World) mutateChain(blocks []*JBlock) ([]*JBlock, string) {
 			o.IsYielding = !o.IsYielding
 			rt.Outputs = []*JOutput{&o}
 			rt.Id = rt.ComputeId()
+		}
+	case "double-spend":
+		// a second, correctly signed transaction spending the first input of an ordinary transaction
+		// of the block again (every per-transaction check passes; only applying the block refuses it)
+		for _, t := range b.Transactions {
+			if len(t.Inputs) == 0 {
+				continue
+			}
+			owner := w.walletOfKey(t.Inputs[0].PublicKey)
+			if owner == nil {
+				continue
+			}
+			t2 := &JTx{Timestamp: t.Timestamp, Inputs: []*JInput{owner.SignInput(t.Inputs[0].OutputIndex, t.Inputs[0].TransactionId)},
+				Outputs: []*JOutput{{w.wallets[r.Intn(len(w.wallets))].Addr, false, 1}}}
+			t2.Id = t2.ComputeId()
+			b.Transactions = append([]*JTx{t2}, b.Transactions...)
+			break
 		}
 	case "dup-tx":
 		for _, t := range b.Transactions {
@@ -717,8 +769,13 @@ func (w *World) run(steps int) {
 				hn := w.helpers[r.Intn(len(w.helpers))]
 				switch {
 				case c < 5 || w.mode == "honest":
-					peers = append(peers, honestPeer(tgt, hn))
-					kinds += "H"
+					if r.Chance(1, 3) {
+						peers = append(peers, indentedPeer(tgt, hn))
+						kinds += "I"
+					} else {
+						peers = append(peers, honestPeer(tgt, hn))
+						kinds += "H"
+					}
 				case c < 8:
 					mut, kind := w.mutateChain(MirrorBlocks(hn.AllBlocks()))
 					peers = append(peers, staticPeer(tgt, mut, w.set.Limit))
@@ -1091,4 +1148,13 @@ func (w *World) yieldRace() {
 	for _, o := range w.helpers {
 		helperSync(o, w.now, []*Peer{honestPeer("10.0.0.1:10600", host)})
 	}
+}
+
+func (w *World) walletOfKey(pubHex string) *Wallet {
+	for _, wl := range w.wallets {
+		if strings.EqualFold(wl.PubHex, pubHex) {
+			return wl
+		}
+	}
+	return nil
 }
